@@ -21,7 +21,8 @@ pub fn inverse_gamma_lr<T: MomTropFloat>(
         epsilon_tolerance.to_f64(),
     );
 
-    if res.is_nan() {
+    // a Gamma variate must be finite and strictly positive (p = 0 yields 0, p -> 1 may overflow)
+    if !(res.is_finite() && res > 0.0) {
         Err(GammaError {})
     } else {
         Ok(a.from_f64(res))
